@@ -1653,8 +1653,8 @@ def c20(ctx):
     ctx.assumptions.append("partial: stack exhaustion and allocation failure of the Go runtime are not modelled; "
                            "reachable => wfe is proved for the statement builders (Model/Api.v: entry points and every method "
                            "of the SELECT / INSERT / UPDATE / DELETE / WITH builder families) and for the expression constructors and "
-                           "ExpBase methods of Model/Ctor.v (C20_built_no_panic); for package fn, Float, the JSON object builder and "
-                           "the CASE chain it is checked on generated values only")
+                           "ExpBase methods of Model/Ctor.v (C20_built_no_panic); for package fn, Float and the JSON object builder "
+                           "it is checked on generated values only")
 
 
 def baseline_off():
